@@ -100,7 +100,27 @@ class IoInterp(Interp):
             if o == "zero":
                 return Res(True, 0)
             return Res(True, len(buf))
-        if isinstance(recv, Src) and name in ("read_exact", "write_all", "flush", "read_to_end"):
+        if isinstance(recv, Src) and name == "read_exact":
+            buf = args[0]
+            if not isinstance(buf, list):
+                raise Unanalysable("read_exact into a non-array buffer")
+            self.requested.append(len(buf))
+            o = recv.outcome
+            if o == "err":
+                return Res(False, "io-error")
+            if o == "eof":
+                return Res(False, "unexpected-eof")      # read_exact reports end of input as an error
+            for i in range(len(buf)):
+                buf[i] = f"byte{i}"
+            return Res(True, UNIT)
+        if isinstance(recv, Src) and name == "write_all":
+            buf = args[0]
+            if not isinstance(buf, list):
+                raise Unanalysable("write_all of a non-array buffer")
+            self.requested.append(tuple(buf))
+            o = recv.outcome
+            return Res(False, "io-error" if o == "err" else "write-zero") if o in ("err", "zero") else Res(True, UNIT)
+        if isinstance(recv, Src) and name in ("flush", "read_to_end"):
             raise Unanalysable(f"{name}: not a one-byte transfer")
         return super().method(recv, name, targs, args, node)
 
@@ -168,9 +188,9 @@ def io_sites(fnode):
             r = strip_paren(m["receiver"])
             txt = None
             # receiver must look like a context: cxt / context / (*cxt).context / self.cxt
-            names = [n["path"]["name"] for n in walk_t(r, "PathExpr")] + [n["member"] for n in walk_t(r, "Field")]
-            if any(x in ("cxt", "context", "ctx") for x in names):
-                out.append(m)
+            # every `.input()` / `.output(x)` method call in a back end is a Context call (E2's SITES/RES rule
+            # cross-checks the enumeration against the resolved callees)
+            out.append(m)
     return out
 
 
